@@ -256,6 +256,12 @@ func TestProp(t *testing.T) {
 	r.Rule("rapid-generated programs of facts w/2, w/3 (ground, partially bound, and variant-of-each-other arguments such as f(X,X) vs f(_,_), duplicates) and rules over them; goals = single calls, conjunctions, disjunctions, member/2 over literal lists with variables, goals with a nested findall/bagof/setof; templates sharing any subset of variables with the goal; any subset of goal variables ^-quantified (nested V1^V2^G, a compound f(A,D)^G); result argument unbound / partial list / bound list. One case = one call findall|bagof|setof(Template, Goal, Result) enumerated to exhaustion. Oracle: the reference implementation of ISO 8.10 (free-variable set, witness, bijective variant test, sorted duplicate-free lists for setof). Compared: the multiset of answers, each answer being the bindings of all variables of the call (free variables = the group's witness, Result = the group's list) up to renaming - group order is not compared; final error if any. Non-trivial: >= 2 groups, or a group with a non-ground witness, or a ^ in the goal. Distinct by case.",
 		"the reference machine's bagof/setof (DESIGN.md 2.3.1)",
 		"group order is not constrained by the property and is not compared")
+	if r.Shard() == 0 {
+		if err := diff.OracleSelfTest(); err != nil {
+			t.Fatalf("%v", err)
+		}
+		r.LabelN("oracle_self_test_examples", ref.NExamples())
+	}
 	r.Regress(t)
 	if r.Failed() {
 		return
